@@ -737,6 +737,26 @@ pub fn exec<'a>(who: Who, k: u32, op: &'a Op, me: SelfRef<'a>) -> BoxFut<'a, Flo
                     None => CancelAfter { inner: Some(f), left: (*polls).max(1) }.await,
                 }
             }
+            Op::Join(subs) => {
+                let mut futs: Vec<Option<BoxFut<'_, Flow>>> = subs.iter().enumerate().map(|(i, o)| Some(exec(who, 1000 * (k + 1) + i as u32, o, me))).collect();
+                std::future::poll_fn(|cx| {
+                    let mut pending = false;
+                    for f in futs.iter_mut() {
+                        if let Some(fut) = f {
+                            match fut.as_mut().poll(cx) {
+                                Poll::Ready(_) => *f = None,
+                                Poll::Pending => pending = true,
+                            }
+                        }
+                    }
+                    if pending {
+                        Poll::Pending
+                    } else {
+                        Poll::Ready(())
+                    }
+                })
+                .await;
+            }
             Op::Fork { id, ops } => {
                 let ops = ops.clone();
                 let tag = match who {
